@@ -234,7 +234,32 @@ def to_int(v):
     return v
 
 
+SYM_COMPARE = None      # client hook deciding a comparison of symbolic integers (op, a, b) -> bool
+
+
+class Sym:
+    """a symbolic integer: a named unknown, or an operator applied to symbolic / concrete operands"""
+    def __init__(self, op, *args):
+        self.op, self.args = op, args
+
+    def __repr__(self):
+        if not self.args:
+            return str(self.op)
+        return "(%s %s)" % (self.op, " ".join(repr(a) for a in self.args))
+
+    def key(self):
+        return repr(self)
+
+
 def binop(op, a, b, ty=None):
+    if isinstance(a, Sym) or isinstance(b, Sym):
+        if a is UNKNOWN or b is UNKNOWN:
+            return UNKNOWN
+        base = op.replace("WithOverflow", "").replace("Unchecked", "")
+        if base in ("Lt", "Le", "Gt", "Ge", "Eq", "Ne") and SYM_COMPARE is not None:
+            return SYM_COMPARE(base.lower(), a, b)
+        r = Sym(base, a, b)
+        return [r, False] if op.endswith("WithOverflow") else r
     if a is UNKNOWN or b is UNKNOWN:
         return UNKNOWN
     if isinstance(a, (Enum, list)) or isinstance(b, (Enum, list)):
